@@ -8,9 +8,9 @@ def run(ctx):
                 "(fault, request kind) pair; Faults.tla model-checks one exchange cut at every point (NeverCompleteButTruncated). "
                 "The harness realises each fault with scripted origins / upstream proxies / TLS peers (refused and timed-out dials, "
                 "TLS garbage, untrusted, expired, wrong-name certificates, CONNECT rejections, replies cut or reset after k bytes of "
-                "head for all k and around chunk boundaries of the body, malformed status line / field / chunk size, trailing "
+                "head for all k and around chunk boundaries of the body, malformed status line / field / chunk size, damaged gzip stream the proxy itself solicited, trailing "
                 "garbage) through real proxies (direct, upstream, MITM), parses what the client gets with the independent parser "
-                "and sends a follow-up request. Hostile client byte streams are thrown at plain / TLS / PROXY / MITM listeners. "
+                "and sends a follow-up request (after an aborted reply: the connection must be closed, not left open). Hostile client byte streams are thrown at plain / TLS / PROXY / MITM listeners. "
                 "Non-trivial = any case with a fault.")
     ctx.mc("Faults.tla", "MC_Faults.cfg")
     binp = ctx.build()
@@ -25,8 +25,8 @@ def run(ctx):
             ctx.nontrivial.add("%s:%s:%s" % (r["f"], r["k"], r["cut"]))
         if not r["ok"]:
             w = r["why"]
-            cls = ("complete-but-truncated" if ("neither the origin" in w or "mid-body" in w) else "status" if "status" in w
-                   else "no-error-header" if "X-Forwarder-Error" in w else "hang" if "12 s" in w else "followup" if "follow-up" in w else "other")
+            cls = ("left-open" if "left open" in w else "complete-but-truncated" if ("neither the origin" in w or "mid-body" in w) else "status" if "status" in w
+                   else "no-error-header" if "X-Forwarder-Error" in w else "hang" if ("12 s" in w or "left open" in w or "not answered within" in w) else "followup" if "follow-up" in w else "other")
             ctx.violation("C12:%s:%s:%s" % (cls, r["f"], r["k"]), r)
         else:
             ctx.traces_ok += 1
